@@ -3,17 +3,28 @@
 // iterator chains; here each impl is an external_body stub with the contract the callers rely on:
 // changing trivia never changes the skeleton / operator / token identity of a node.
 
+pub open spec fn ftt_lines_ok(t: FormatTriviaType) -> bool {
+    match t { FormatTriviaType::Append(v) => trivia_lines_ok(v@), FormatTriviaType::Replace(v) => trivia_lines_ok(v@), FormatTriviaType::NoChange => true }
+}
+pub open spec fn ftt_new_line(t: FormatTriviaType) -> bool {
+    match t { FormatTriviaType::Append(v) => puts_on_new_line(v@), FormatTriviaType::Replace(v) => puts_on_new_line(v@), FormatTriviaType::NoChange => false }
+}
 pub trait UpdateLeadingTrivia: Sized {
     spec fn same_sem(&self, r: &Self) -> bool;
     spec fn lead_ok(&self, t: FormatTriviaType, r: &Self) -> bool;
+    spec fn on_new_line(&self) -> bool;                 // the node's first token starts a new line (C01, prelude/lines.rs)
+    spec fn rest_same(&self, r: &Self) -> bool;         // everything but the leading trivia of the first token is as before
     fn update_leading_trivia(&self, leading_trivia: FormatTriviaType) -> (r: Self)
         ensures self.same_sem(&r), self.lead_ok(leading_trivia, &r);
 }
 pub trait UpdateTrailingTrivia: Sized {
     spec fn same_sem_t(&self, r: &Self) -> bool;
     spec fn trail_ok(&self, t: FormatTriviaType, r: &Self) -> bool;
+    spec fn not_open(&self) -> bool;                    // no line comment behind the node's last token (prelude/lines.rs)
     fn update_trailing_trivia(&self, trailing_trivia: FormatTriviaType) -> (r: Self)
-        ensures self.same_sem_t(&r), self.trail_ok(trailing_trivia, &r);
+        ensures self.same_sem_t(&r), self.trail_ok(trailing_trivia, &r),
+                // replacing the trailing trivia by nothing leaves nothing behind the last token
+                (trailing_trivia is Replace && trailing_trivia->Replace_0@.len() == 0) ==> r.not_open();
 }
 pub trait UpdateTrivia: Sized {
     spec fn same_sem_u(&self, r: &Self) -> bool;
@@ -27,22 +38,35 @@ pub open spec fn append_ends_with_space(t: FormatTriviaType) -> bool {
 }   // the expression's leading trivia ends with a space token the formatter appended
 impl UpdateLeadingTrivia for Expression {
     open spec fn same_sem(&self, r: &Self) -> bool { skel(*r) == skel(*self) && begins_with_bracket_string(*r) == begins_with_bracket_string(*self) }
-    open spec fn lead_ok(&self, t: FormatTriviaType, r: &Self) -> bool { append_ends_with_space(t) ==> expr_padded_left(*r) }
+    open spec fn lead_ok(&self, t: FormatTriviaType, r: &Self) -> bool {
+        (append_ends_with_space(t) ==> expr_padded_left(*r))
+        // only the leading trivia of the first token changes: the last token stays as open as it was; new leading trivia whose
+        // line comments are each followed by a newline keep the expression safe; trivia ending with newline (+ indent) start a line
+        && eopen(*r) == eopen(*self) && (ftt_lines_ok(t) ==> esafe(*r) == esafe(*self)) && (ftt_new_line(t) ==> enl(*r))
+    }
+    open spec fn on_new_line(&self) -> bool { enl(*self) }
+    open spec fn rest_same(&self, r: &Self) -> bool { esafe(*r) == esafe(*self) && eopen(*r) == eopen(*self) }
     #[verifier::external_body] fn update_leading_trivia(&self, leading_trivia: FormatTriviaType) -> (r: Self) { unimplemented!() }
 }
 impl UpdateTrailingTrivia for Expression {
-    open spec fn same_sem_t(&self, r: &Self) -> bool { skel(*r) == skel(*self) && begins_with_bracket_string(*r) == begins_with_bracket_string(*self) && expr_padded_left(*r) == expr_padded_left(*self) }
+    // trailing trivia hold whitespace and comments only: changing them never puts code behind a comment, nor moves the first token
+    open spec fn same_sem_t(&self, r: &Self) -> bool { skel(*r) == skel(*self) && begins_with_bracket_string(*r) == begins_with_bracket_string(*self) && expr_padded_left(*r) == expr_padded_left(*self)
+        && esafe(*r) == esafe(*self) && enl(*r) == enl(*self) }
     open spec fn trail_ok(&self, t: FormatTriviaType, r: &Self) -> bool { true }
+    open spec fn not_open(&self) -> bool { !eopen(*self) }
     #[verifier::external_body] fn update_trailing_trivia(&self, trailing_trivia: FormatTriviaType) -> (r: Self) { unimplemented!() }
 }
 impl UpdateLeadingTrivia for BinOp {
     open spec fn same_sem(&self, r: &Self) -> bool { binop_id(*r) == binop_id(*self) }
-    open spec fn lead_ok(&self, t: FormatTriviaType, r: &Self) -> bool { true }
+    open spec fn lead_ok(&self, t: FormatTriviaType, r: &Self) -> bool { binop_open(*r) == binop_open(*self) && (ftt_new_line(t) ==> binop_nl(*r)) }
+    open spec fn on_new_line(&self) -> bool { binop_nl(*self) }
+    open spec fn rest_same(&self, r: &Self) -> bool { binop_open(*r) == binop_open(*self) }
     #[verifier::external_body] fn update_leading_trivia(&self, leading_trivia: FormatTriviaType) -> (r: Self) { unimplemented!() }
 }
 impl UpdateTrailingTrivia for BinOp {
-    open spec fn same_sem_t(&self, r: &Self) -> bool { binop_id(*r) == binop_id(*self) }
+    open spec fn same_sem_t(&self, r: &Self) -> bool { binop_id(*r) == binop_id(*self) && binop_nl(*r) == binop_nl(*self) }
     open spec fn trail_ok(&self, t: FormatTriviaType, r: &Self) -> bool { true }
+    open spec fn not_open(&self) -> bool { !binop_open(*self) }
     #[verifier::external_body] fn update_trailing_trivia(&self, trailing_trivia: FormatTriviaType) -> (r: Self) { unimplemented!() }
 }
 impl UpdateTrivia for BinOp {
@@ -51,22 +75,28 @@ impl UpdateTrivia for BinOp {
 }
 impl UpdateLeadingTrivia for UnOp {
     open spec fn same_sem(&self, r: &Self) -> bool { unop_id(*r) == unop_id(*self) }
-    open spec fn lead_ok(&self, t: FormatTriviaType, r: &Self) -> bool { true }
+    open spec fn lead_ok(&self, t: FormatTriviaType, r: &Self) -> bool { unop_open(*r) == unop_open(*self) && (ftt_new_line(t) ==> unop_nl(*r)) }
+    open spec fn on_new_line(&self) -> bool { unop_nl(*self) }
+    open spec fn rest_same(&self, r: &Self) -> bool { unop_open(*r) == unop_open(*self) }
     #[verifier::external_body] fn update_leading_trivia(&self, leading_trivia: FormatTriviaType) -> (r: Self) { unimplemented!() }
 }
 impl UpdateTrailingTrivia for UnOp {
     open spec fn same_sem_t(&self, r: &Self) -> bool { unop_id(*r) == unop_id(*self) }
     open spec fn trail_ok(&self, t: FormatTriviaType, r: &Self) -> bool { true }
+    open spec fn not_open(&self) -> bool { !unop_open(*self) }
     #[verifier::external_body] fn update_trailing_trivia(&self, trailing_trivia: FormatTriviaType) -> (r: Self) { unimplemented!() }
 }
 impl UpdateLeadingTrivia for TokenReference {
     open spec fn same_sem(&self, r: &Self) -> bool { tok_of(*r) == tok_of(*self) }
-    open spec fn lead_ok(&self, t: FormatTriviaType, r: &Self) -> bool { true }
+    open spec fn lead_ok(&self, t: FormatTriviaType, r: &Self) -> bool { tok_open(*r) == tok_open(*self) && (ftt_new_line(t) ==> tok_nl(*r)) }
+    open spec fn on_new_line(&self) -> bool { tok_nl(*self) }
+    open spec fn rest_same(&self, r: &Self) -> bool { tok_open(*r) == tok_open(*self) }
     #[verifier::external_body] fn update_leading_trivia(&self, leading_trivia: FormatTriviaType) -> (r: Self) { unimplemented!() }
 }
 impl UpdateTrailingTrivia for TokenReference {
-    open spec fn same_sem_t(&self, r: &Self) -> bool { tok_of(*r) == tok_of(*self) }
+    open spec fn same_sem_t(&self, r: &Self) -> bool { tok_of(*r) == tok_of(*self) && tok_nl(*r) == tok_nl(*self) }
     open spec fn trail_ok(&self, t: FormatTriviaType, r: &Self) -> bool { (t is Append && t->Append_0@.len() > 0) ==> tok_followed_by_ws(*r) }
+    open spec fn not_open(&self) -> bool { !tok_open(*self) }
     #[verifier::external_body] fn update_trailing_trivia(&self, trailing_trivia: FormatTriviaType) -> (r: Self) { unimplemented!() }
 }
 impl UpdateTrivia for TokenReference {
@@ -74,25 +104,31 @@ impl UpdateTrivia for TokenReference {
     #[verifier::external_body] fn update_trivia(&self, leading_trivia: FormatTriviaType, trailing_trivia: FormatTriviaType) -> (r: Self) { unimplemented!() }
 }
 impl UpdateLeadingTrivia for ContainedSpan {
-    open spec fn same_sem(&self, r: &Self) -> bool { true }
-    open spec fn lead_ok(&self, t: FormatTriviaType, r: &Self) -> bool { true }
+    open spec fn same_sem(&self, r: &Self) -> bool { span_close(*r) == span_close(*self) && tok_open(span_open(*r)) == tok_open(span_open(*self)) }
+    open spec fn lead_ok(&self, t: FormatTriviaType, r: &Self) -> bool { ftt_new_line(t) ==> tok_nl(span_open(*r)) }
+    open spec fn on_new_line(&self) -> bool { tok_nl(span_open(*self)) }
+    open spec fn rest_same(&self, r: &Self) -> bool { span_close(*r) == span_close(*self) }
     #[verifier::external_body] fn update_leading_trivia(&self, leading_trivia: FormatTriviaType) -> (r: Self) { unimplemented!() }
 }
 impl UpdateTrailingTrivia for ContainedSpan {
-    open spec fn same_sem_t(&self, r: &Self) -> bool { true }
+    open spec fn same_sem_t(&self, r: &Self) -> bool { span_open(*r) == span_open(*self) && tok_nl(span_close(*r)) == tok_nl(span_close(*self)) }
     open spec fn trail_ok(&self, t: FormatTriviaType, r: &Self) -> bool { true }
+    open spec fn not_open(&self) -> bool { !tok_open(span_close(*self)) }
     #[verifier::external_body] fn update_trailing_trivia(&self, trailing_trivia: FormatTriviaType) -> (r: Self) { unimplemented!() }
 }
 #[cfg(feature = "luau")]
 impl UpdateLeadingTrivia for full_moon::ast::luau::TypeAssertion {
     open spec fn same_sem(&self, r: &Self) -> bool { type_assertion_id(*r) == type_assertion_id(*self) }
-    open spec fn lead_ok(&self, t: FormatTriviaType, r: &Self) -> bool { true }
+    open spec fn lead_ok(&self, t: FormatTriviaType, r: &Self) -> bool { ta_open(*r) == ta_open(*self) && (ftt_lines_ok(t) ==> ta_safe(*r) == ta_safe(*self)) && (ftt_new_line(t) ==> ta_nl(*r)) }
+    open spec fn on_new_line(&self) -> bool { ta_nl(*self) }
+    open spec fn rest_same(&self, r: &Self) -> bool { ta_open(*r) == ta_open(*self) && ta_safe(*r) == ta_safe(*self) }
     #[verifier::external_body] fn update_leading_trivia(&self, leading_trivia: FormatTriviaType) -> (r: Self) { unimplemented!() }
 }
 #[cfg(feature = "luau")]
 impl UpdateTrailingTrivia for full_moon::ast::luau::TypeAssertion {
-    open spec fn same_sem_t(&self, r: &Self) -> bool { type_assertion_id(*r) == type_assertion_id(*self) }
+    open spec fn same_sem_t(&self, r: &Self) -> bool { type_assertion_id(*r) == type_assertion_id(*self) && ta_nl(*r) == ta_nl(*self) && ta_safe(*r) == ta_safe(*self) }
     open spec fn trail_ok(&self, t: FormatTriviaType, r: &Self) -> bool { true }
+    open spec fn not_open(&self) -> bool { !ta_open(*self) }
     #[verifier::external_body] fn update_trailing_trivia(&self, trailing_trivia: FormatTriviaType) -> (r: Self) { unimplemented!() }
 }
 
@@ -131,8 +167,11 @@ pub trait GetLeadingTrivia {
     fn leading_comments(&self) -> Vec<Token>;
 }
 pub trait GetTrailingTrivia {
+    spec fn ends_open(&self) -> bool;    // the node's last token is followed by a line comment (prelude/lines.rs)
     fn trailing_trivia(&self) -> Vec<Token>;
-    fn has_trailing_comments(&self, search: CommentSearch) -> bool;
+    // an open last token carries a line comment in its trailing trivia, which a search for line comments (or all comments) finds
+    fn has_trailing_comments(&self, search: CommentSearch) -> (r: bool)
+        ensures self.ends_open() && !(search is Multiline) ==> r;
     fn trailing_comments(&self) -> Vec<Token>;
 }
 impl GetLeadingTrivia for Expression {
@@ -141,8 +180,9 @@ impl GetLeadingTrivia for Expression {
     #[verifier::external_body] fn leading_comments(&self) -> Vec<Token> { unimplemented!() }
 }
 impl GetTrailingTrivia for Expression {
+    open spec fn ends_open(&self) -> bool { eopen(*self) }
     #[verifier::external_body] fn trailing_trivia(&self) -> Vec<Token> { unimplemented!() }
-    #[verifier::external_body] fn has_trailing_comments(&self, search: CommentSearch) -> bool { unimplemented!() }
+    #[verifier::external_body] fn has_trailing_comments(&self, search: CommentSearch) -> (r: bool) { unimplemented!() }
     #[verifier::external_body] fn trailing_comments(&self) -> Vec<Token> { unimplemented!() }
 }
 impl GetLeadingTrivia for BinOp {
@@ -151,8 +191,9 @@ impl GetLeadingTrivia for BinOp {
     #[verifier::external_body] fn leading_comments(&self) -> Vec<Token> { unimplemented!() }
 }
 impl GetTrailingTrivia for BinOp {
+    open spec fn ends_open(&self) -> bool { binop_open(*self) }
     #[verifier::external_body] fn trailing_trivia(&self) -> Vec<Token> { unimplemented!() }
-    #[verifier::external_body] fn has_trailing_comments(&self, search: CommentSearch) -> bool { unimplemented!() }
+    #[verifier::external_body] fn has_trailing_comments(&self, search: CommentSearch) -> (r: bool) { unimplemented!() }
     #[verifier::external_body] fn trailing_comments(&self) -> Vec<Token> { unimplemented!() }
 }
 impl GetLeadingTrivia for TokenReference {
@@ -161,7 +202,8 @@ impl GetLeadingTrivia for TokenReference {
     #[verifier::external_body] fn leading_comments(&self) -> Vec<Token> { unimplemented!() }
 }
 impl GetTrailingTrivia for TokenReference {
+    open spec fn ends_open(&self) -> bool { tok_open(*self) }
     #[verifier::external_body] fn trailing_trivia(&self) -> Vec<Token> { unimplemented!() }
-    #[verifier::external_body] fn has_trailing_comments(&self, search: CommentSearch) -> bool { unimplemented!() }
+    #[verifier::external_body] fn has_trailing_comments(&self, search: CommentSearch) -> (r: bool) { unimplemented!() }
     #[verifier::external_body] fn trailing_comments(&self) -> Vec<Token> { unimplemented!() }
 }
